@@ -307,8 +307,20 @@ def run(ctx):
     fi = M.function("encodingunit")
     paths = paths_of(ctx, fi)
     rets = [p for p in paths if p.returns]
-    ok = len(rets) == 1 and rets[0].retval[0] == "call" and rets[0].retval[1] == ("free", "bytes") and rets[0].retval[2][0][0] == "sub" \
-        and rets[0].retval[2][0][1] == ("free", "possiblestringencodings")
+    def table_entry(t):
+        # the unit size looked up in the table: possiblestringencodings[name] or .get(name) (a miss is refused before the value is used)
+        return (t[0] == "sub" and t[1] == ("free", "possiblestringencodings")) or \
+            (t[0] == "call" and t[1] == ("attr", ("free", "possiblestringencodings"), "get") and len(t[2]) == 1)
+    def zeros(t):
+        # that many zero bytes: bytes(n) or b"\x00" * n
+        if t[0] == "call" and t[1] == ("free", "bytes") and len(t[2]) == 1 and not t[3]:
+            return t[2][0]
+        if t[0] == "mul" and N.const(b"\x00") in t[1:3]:
+            return t[2] if t[1] == N.const(b"\x00") else t[1]
+        if t[0] == "bin" and t[1] == "*" and N.const(b"\x00") in t[2:4]:
+            return t[3] if t[2] == N.const(b"\x00") else t[2]
+        return None
+    ok = len(rets) == 1 and zeros(rets[0].retval) is not None and table_entry(zeros(rets[0].retval))
     ctx.ob("C03.R2", fi, ok, "encodingunit returns bytes(unit): that many zero bytes", key="encodingunit")
     rais = [p for p in paths if p.outcome[0] == "raise"]
     ctx.ob("C03.R2", fi, len(rais) == 1 and rais[0].outcome[1].get("cls") == "StringError", "an unsupported encoding is a StringError", key="encodingunit reject")
